@@ -1054,6 +1054,9 @@ func verifyRefine(prog *Program, fi *FuncInfo, own, iface *Contract, opts *Optio
 	if len(e.specErrors) > 0 {
 		return
 	}
+	for _, ln := range append(append([]string(nil), own.Uses...), iface.Uses...) {
+		e.useLemma(st, ln)
+	}
 	e.entry = st.clone()
 	outs := e.applyContract(st, nil, fi, own, recv, args)
 	for i, o := range resObjs {
